@@ -126,6 +126,7 @@ def run_case(desc):
         it.update(ev)
         it['rules'] = obs.get('rules')
         it['unmerged_pairs'] = unmerged
+    c03.apply_baseline('C18', desc, items)
     nontrivial = stats['rebuilds_seen'] > 0
     return {'key': key, 'nontrivial': nontrivial, 'items': items,
             'stats': stats, 'case': dict(case, ops=kinds,
